@@ -12,34 +12,121 @@
  * "trailing backslash" = the input ends in an unescaped backslash; "plain" = neither. */
 
 /*@unit
-name: split.grammar.ws
-define: U_GRAMMAR, V_DELIM_KIND=0
+name: split.grammar.ws.plain
+define: U_GRAMMAR, V_DELIM_KIND=0, V_CLASS=0
 src: strings.c
 tier: B
-bound: input length <= 7 over {a,b,space,:,',",\}; delimiter set NULL (whitespace)
-unwind: 10
-backend: kissat,cadical
+bound: input length <= 5 (quick tier) / <= 7 (thorough tier) over {a,b,space,:,',",\}; delimiter set NULL (whitespace); inputs without mixed quotes and without a trailing unescaped backslash; loops unwound 8 / 10
+unwind: 8
+unwind_thorough: 10
+backend: cadical
 timeout: 600
+timeout_thorough: 3000
+mem: 16
 */
 /*@unit
-name: split.grammar.colon
-define: U_GRAMMAR, V_DELIM_KIND=1
+name: split.grammar.ws.mixed
+define: U_GRAMMAR, V_DELIM_KIND=0, V_CLASS=1
 src: strings.c
 tier: B
-bound: input length <= 7 over {a,b,space,:,',",\}; delimiter set ":"
-unwind: 10
-backend: kissat,cadical
+bound: input length <= 5 (quick tier) / <= 7 (thorough tier) over {a,b,space,:,',",\}; delimiter set NULL (whitespace); inputs with a quote character of the other kind inside quotes; loops unwound 8 / 10
+unwind: 8
+unwind_thorough: 10
+backend: cadical
 timeout: 600
+timeout_thorough: 3000
+mem: 16
 */
 /*@unit
-name: split.grammar.spcolon
-define: U_GRAMMAR, V_DELIM_KIND=2
+name: split.grammar.ws.trailbs
+define: U_GRAMMAR, V_DELIM_KIND=0, V_CLASS=2
 src: strings.c
 tier: B
-bound: input length <= 7 over {a,b,space,:,',",\}; delimiter set " :"
-unwind: 10
-backend: kissat,cadical
+bound: input length <= 5 (quick tier) / <= 7 (thorough tier) over {a,b,space,:,',",\}; delimiter set NULL (whitespace); inputs ending in an unescaped backslash (no mixed quotes); loops unwound 8 / 10
+unwind: 8
+unwind_thorough: 10
+backend: cadical
 timeout: 600
+timeout_thorough: 3000
+mem: 16
+*/
+/*@unit
+name: split.grammar.colon.plain
+define: U_GRAMMAR, V_DELIM_KIND=1, V_CLASS=0
+src: strings.c
+tier: B
+bound: input length <= 5 (quick tier) / <= 7 (thorough tier) over {a,b,space,:,',",\}; delimiter set ":"; inputs without mixed quotes and without a trailing unescaped backslash; loops unwound 8 / 10
+unwind: 8
+unwind_thorough: 10
+backend: cadical
+timeout: 600
+timeout_thorough: 3000
+mem: 16
+*/
+/*@unit
+name: split.grammar.colon.mixed
+define: U_GRAMMAR, V_DELIM_KIND=1, V_CLASS=1
+src: strings.c
+tier: B
+bound: input length <= 5 (quick tier) / <= 7 (thorough tier) over {a,b,space,:,',",\}; delimiter set ":"; inputs with a quote character of the other kind inside quotes; loops unwound 8 / 10
+unwind: 8
+unwind_thorough: 10
+backend: cadical
+timeout: 600
+timeout_thorough: 3000
+mem: 16
+*/
+/*@unit
+name: split.grammar.colon.trailbs
+define: U_GRAMMAR, V_DELIM_KIND=1, V_CLASS=2
+src: strings.c
+tier: B
+bound: input length <= 5 (quick tier) / <= 7 (thorough tier) over {a,b,space,:,',",\}; delimiter set ":"; inputs ending in an unescaped backslash (no mixed quotes); loops unwound 8 / 10
+unwind: 8
+unwind_thorough: 10
+backend: cadical
+timeout: 600
+timeout_thorough: 3000
+mem: 16
+*/
+/*@unit
+name: split.grammar.spcolon.plain
+define: U_GRAMMAR, V_DELIM_KIND=2, V_CLASS=0
+src: strings.c
+tier: B
+bound: input length <= 5 (quick tier) / <= 7 (thorough tier) over {a,b,space,:,',",\}; delimiter set " :"; inputs without mixed quotes and without a trailing unescaped backslash; loops unwound 8 / 10
+unwind: 8
+unwind_thorough: 10
+backend: cadical
+timeout: 600
+timeout_thorough: 3000
+mem: 16
+*/
+/*@unit
+name: split.grammar.spcolon.mixed
+define: U_GRAMMAR, V_DELIM_KIND=2, V_CLASS=1
+src: strings.c
+tier: B
+bound: input length <= 5 (quick tier) / <= 7 (thorough tier) over {a,b,space,:,',",\}; delimiter set " :"; inputs with a quote character of the other kind inside quotes; loops unwound 8 / 10
+unwind: 8
+unwind_thorough: 10
+backend: cadical
+timeout: 600
+timeout_thorough: 3000
+mem: 16
+*/
+/*@unit
+name: split.grammar.spcolon.trailbs
+define: U_GRAMMAR, V_DELIM_KIND=2, V_CLASS=2
+src: strings.c
+tier: B
+bound: input length <= 5 (quick tier) / <= 7 (thorough tier) over {a,b,space,:,',",\}; delimiter set " :"; inputs ending in an unescaped backslash (no mixed quotes); loops unwound 8 / 10
+unwind: 8
+unwind_thorough: 10
+backend: cadical
+timeout: 600
+timeout_thorough: 3000
+mem: 16
 */
 #define VERIF_OWN_STRLEN
 #define VERIF_OWN_STRCHR
@@ -69,41 +156,35 @@ void harness(void)
     spif_charptr_t *l;
 
     vr_tokenize(V_DELIM, in, &R);
+#if V_CLASS == 0
+    __CPROVER_assume(!R.f_mixed && !R.f_trailbs);
+#elif V_CLASS == 1
+    __CPROVER_assume(R.f_mixed);
+#else
+    __CPROVER_assume(!R.f_mixed && R.f_trailbs);
+#endif
     l = spiftool_split(V_DELIM, (spif_charptr_t) in);
 
     /* the input is not modified (ghost index) */
     __CPROVER_assert(!(vg_k <= n) || in[vg_k] == w_in[vg_k], "split: input string unchanged");
 
-    if (R.f_mixed) {
-        __CPROVER_assert((l == NULL) == (R.cnt == 0), "split [mixed quotes]: NULL result iff the grammar has no token");
-        if (l != NULL) {
-            for (i = 0; i < R.cnt; i++) {
-                __CPROVER_assert(l[i] != NULL, "split [mixed quotes]: at least as many tokens as the grammar");
-                if (l[i] == NULL) return;
-                __CPROVER_assert(vr_streq((char *) l[i], R.t[i]), "split [mixed quotes]: token text equals the grammar's token");
-            }
-            __CPROVER_assert(l[R.cnt] == NULL, "split [mixed quotes]: array NULL-terminated right after the last grammar token");
+#if V_CLASS == 0
+# define CLS "[plain]"
+#elif V_CLASS == 1
+# define CLS "[mixed quotes]"
+#else
+# define CLS "[trailing backslash]"
+#endif
+    __CPROVER_assert((l == NULL) == (R.cnt == 0), "split " CLS ": NULL result iff the grammar has no token");
+    if (l != NULL) {
+        for (i = 0; i < R.cnt; i++) {
+            __CPROVER_assert(l[i] != NULL, "split " CLS ": at least as many tokens as the grammar");
+            if (l[i] == NULL) return;
+            __CPROVER_assert(vr_streq((char *) l[i], R.t[i]), "split " CLS ": token text equals the grammar's token");
+            vs_check_block(l[i]);
         }
-    } else if (R.f_trailbs) {
-        __CPROVER_assert((l == NULL) == (R.cnt == 0), "split [trailing backslash]: NULL result iff the grammar has no token");
-        if (l != NULL) {
-            for (i = 0; i < R.cnt; i++) {
-                __CPROVER_assert(l[i] != NULL, "split [trailing backslash]: at least as many tokens as the grammar");
-                if (l[i] == NULL) return;
-                __CPROVER_assert(vr_streq((char *) l[i], R.t[i]), "split [trailing backslash]: token text equals the grammar's token");
-            }
-            __CPROVER_assert(l[R.cnt] == NULL, "split [trailing backslash]: array NULL-terminated right after the last grammar token");
-        }
-    } else {
-        __CPROVER_assert((l == NULL) == (R.cnt == 0), "split [plain]: NULL result iff the grammar has no token");
-        if (l != NULL) {
-            for (i = 0; i < R.cnt; i++) {
-                __CPROVER_assert(l[i] != NULL, "split [plain]: at least as many tokens as the grammar");
-                if (l[i] == NULL) return;
-                __CPROVER_assert(vr_streq((char *) l[i], R.t[i]), "split [plain]: token text equals the grammar's token");
-            }
-            __CPROVER_assert(l[R.cnt] == NULL, "split [plain]: array NULL-terminated right after the last grammar token");
-        }
+        __CPROVER_assert(l[R.cnt] == NULL, "split " CLS ": array NULL-terminated right after the last grammar token");
+        vs_check_block(l);
     }
     VERIF_CANARY();
 }
